@@ -426,6 +426,15 @@ func (e *Engine) harnessIntrinsic(st *State, f *Frame, fn *ssa.Function, name st
 	case "vSameArray":
 		a, b := args[0].(*SliceVal), args[1].(*SliceVal)
 		return ret(Bool(a.obj == b.obj && a.obj != 0 && samePath(a.path, b.path)))
+	case "vWithin":
+		a, b := args[0].(*SliceVal), args[1].(*SliceVal)
+		if a.obj == 0 {
+			return ret(tTrue)
+		}
+		if b.obj == 0 || a.obj != b.obj || !samePath(a.path, b.path) {
+			return ret(Eq(a.len, c64(0)))
+		}
+		return ret(And(Sle(b.off, a.off), Sle(Add(a.off, a.len), Add(b.off, b.len))))
 	case "vSliceOff":
 		// offset of a slice inside its backing array (ghost observation)
 		a := args[0].(*SliceVal)
